@@ -170,7 +170,24 @@ pub async fn quiet_checks(world: &WorldRef, _hist: &HistoryRef) -> Value {
             let o = oracle.lock().unwrap();
             o.views.iter().map(|(id, v)| json!({"node": id, "role": v.role, "term": v.term, "up": v.up})).collect()
         };
-        oracle.lock().unwrap().violate("C32", "no_leader_after_quiet", json!({"up": up, "views": views}));
+        // last log ids: a voter holding a longer (uncommitted) log than the others is the
+        // enabling condition of a known election live-lock
+        let lasts: Vec<(u32, u64, u64)> = {
+            let w = world.borrow();
+            w.nodes
+                .iter()
+                .filter_map(|(id, n)| n.as_ref().and_then(|n| n.cur.as_ref()).map(|c| {
+                    let l = c.raft_log.last_log_id().unwrap_or(d_engine_proto::common::LogId { index: 0, term: 0 });
+                    (*id, l.index, l.term)
+                }))
+                .collect()
+        };
+        let distinct: BTreeSet<(u64, u64)> = lasts.iter().map(|l| (l.1, l.2)).collect();
+        oracle.lock().unwrap().violate(
+            "C32",
+            "no_leader_after_quiet",
+            json!({"up": up, "views": views, "last_log_ids": lasts, "voters_logs_differ": distinct.len() > 1}),
+        );
         return out;
     };
     // fresh write through the leader
@@ -227,10 +244,17 @@ pub async fn quiet_checks(world: &WorldRef, _hist: &HistoryRef) -> Value {
         let applied = n.sm_img.lock().unwrap().last_applied.0;
         if applied < commit {
             let cur = n.cur.as_ref().unwrap();
+            let acked_max = {
+                let o = oracle.lock().unwrap();
+                o.acks.values().filter_map(|m| m.get(id)).copied().max().unwrap_or(0)
+            };
+            let lost_acked = acked_max > cur.raft_log.last_entry_id();
             oracle.lock().unwrap().violate(
                 "C32",
                 "voter_not_caught_up",
                 json!({"node": id, "applied": applied, "commit": commit, "leader": lid,
+                       "acked_before": acked_max, "lost_acknowledged_entries": lost_acked,
+                       "restarts": n.inc_counter - 1, "last_down_kind": n.last_down_kind,
                        "log_first": cur.raft_log.first_entry_id(), "log_last": cur.raft_log.last_entry_id(),
                        "has_snapshot_meta": n.sm_img.lock().unwrap().snapshot_meta.is_some()}),
             );
@@ -435,6 +459,8 @@ pub fn final_checks(world: &WorldRef, hist: &HistoryRef) -> Value {
     let mut lin_events: HashMap<String, Vec<LEvent>> = HashMap::new();
     let mut ids: HashMap<String, u32> = HashMap::new();
     let mut n_lin_reads = 0u64;
+    let mut lease_read_ids: BTreeSet<u64> = BTreeSet::new();
+    let mut deposed_reads: BTreeSet<u64> = BTreeSet::new();
     for op in h.ops.iter() {
         let is_write = matches!(op.kind, OpKind::Put | OpKind::PutTtl | OpKind::Delete | OpKind::Cas(_));
         // C37: applied command equals the submitted operation
@@ -482,11 +508,49 @@ pub fn final_checks(world: &WorldRef, hist: &HistoryRef) -> Value {
             }
             Outcome::Unresolved(kind) => {
                 if !op.node_died {
+                    let (cand, stepdown, role_at_invoke) = {
+                        let o = oracle.lock().unwrap();
+                        let mut role_at_invoke = -1;
+                        let mut cand = false;
+                        let mut stepdown = false;
+                        let mut prev_role = -1;
+                        for (t, n, r, _) in o.role_events.iter() {
+                            if *n != op.node {
+                                continue;
+                            }
+                            if *t <= op.invoke_ms {
+                                role_at_invoke = *r;
+                            } else if *t <= op.ret_ms {
+                                if *r == crate::oracle::ROLE_CANDIDATE {
+                                    cand = true;
+                                }
+                                if prev_role == ROLE_LEADER && *r != ROLE_LEADER {
+                                    stepdown = true;
+                                }
+                            }
+                            prev_role = *r;
+                        }
+                        if role_at_invoke == crate::oracle::ROLE_CANDIDATE {
+                            cand = true;
+                        }
+                        (cand, stepdown, role_at_invoke)
+                    };
+                    let committed = op.value.as_ref().is_some_and(|v| {
+                        led.by_index.values().any(|le| {
+                            d_engine_core::decode_entries(vec![le.entry.clone()]).ok().and_then(|mut x| x.pop()).is_some_and(|a| match a.command {
+                                Command::Insert { value, .. } | Command::CompareAndSwap { value, .. } => value == v.as_bytes(),
+                                _ => false,
+                            })
+                        })
+                    });
                     oracle.lock().unwrap().violate(
                         "C30",
                         kind,
                         json!({"op": op.id, "kind": format!("{:?}", op.kind), "node": op.node, "path": op.path,
-                               "invoke_ms": op.invoke_ms, "waited_ms": op.ret_ms - op.invoke_ms}),
+                               "invoke_ms": op.invoke_ms, "waited_ms": op.ret_ms - op.invoke_ms,
+                               "role_at_invoke": role_at_invoke, "candidate_during_wait": cand,
+                               "stepdown_during_wait": stepdown, "is_write": is_write, "entry_committed": committed,
+                               "apply_lagging_at_return": op.apply_lag_at_ret > 0}),
                     );
                 } else {
                     oracle.lock().unwrap().probe("unresolved_but_node_died");
@@ -549,7 +613,19 @@ pub fn final_checks(world: &WorldRef, hist: &HistoryRef) -> Value {
             }
         }
         // linearizability events per key (single-key ops)
-        let strong_read = matches!(op.kind, OpKind::ReadLin | OpKind::ReadLease) && op.keys.len() == 1;
+        // effective policy: the client's only if the server allows overrides, else the default
+        let eff_policy: Option<u8> = match op.kind {
+            OpKind::ReadLin | OpKind::ReadLease | OpKind::ReadEventual | OpKind::ReadDefault | OpKind::MultiRead => {
+                let dp = w.plan.knobs.default_policy;
+                Some(match (op.policy, w.plan.knobs.allow_override) {
+                    (Some(p), true) => p,
+                    _ => dp,
+                })
+            }
+            _ => None,
+        };
+        let is_lease_eff = eff_policy == Some(0);
+        let strong_read = matches!(eff_policy, Some(0) | Some(1)) && op.keys.len() == 1 && !matches!(op.kind, OpKind::MultiRead);
         if !(is_write || strong_read) {
             continue;
         }
@@ -564,8 +640,39 @@ pub fn final_checks(world: &WorldRef, hist: &HistoryRef) -> Value {
                 let outcome = if let Outcome::WriteOk(c) = o { *c } else { None };
                 Some(LOp::Cas(exp, val_id(&mut ids, op.value.as_ref().unwrap()), outcome))
             }
-            (OpKind::ReadLin | OpKind::ReadLease, Outcome::ReadOk(vals)) => {
+            (OpKind::ReadLin | OpKind::ReadLease | OpKind::ReadEventual | OpKind::ReadDefault, Outcome::ReadOk(vals)) if strong_read => {
                 n_lin_reads += 1;
+                // direct oracle (C11/C12): the serving node must not already be deposed, i.e. no
+                // node acted as leader of a higher term before this read was invoked
+                {
+                    let mut o = oracle.lock().unwrap();
+                    let mut node_term = 0u64;
+                    for (t, n, _r, term) in o.role_events.iter() {
+                        if *n == op.node && *t <= op.ret_ms {
+                            node_term = *term;
+                        }
+                    }
+                    let newer = o
+                        .leaders
+                        .iter()
+                        .filter(|(t, ev)| **t > node_term && ev.iter().any(|e| e.node != op.node && e.vtime_ms < op.invoke_ms))
+                        .map(|(t, ev)| (*t, ev[0].node, ev[0].vtime_ms))
+                        .next();
+                    if let Some((nt, nl, at)) = newer {
+                        deposed_reads.insert(op.id);
+                        let (p, k) = if is_lease_eff { ("C12", "lease_read_while_deposed") } else { ("C11", "linearizable_read_by_deposed_leader") };
+                        o.violate(
+                            p,
+                            k,
+                            json!({"node": op.node, "node_term": node_term, "newer_term": nt, "newer_leader": nl,
+                                   "newer_leader_since_ms": at, "read_invoke_ms": op.invoke_ms, "path": op.path,
+                                   "voters": w.plan.voters.len()}),
+                        );
+                    }
+                }
+                if is_lease_eff {
+                    lease_read_ids.insert(op.id);
+                }
                 Some(LOp::Read(vals[0].as_ref().map(|v| val_id(&mut ids, v))))
             }
             _ => None,
@@ -594,11 +701,7 @@ pub fn final_checks(world: &WorldRef, hist: &HistoryRef) -> Value {
                 let has_lease = reads.iter().any(|o| matches!(o.kind, OpKind::ReadLease) && matches!(o.outcome, Outcome::ReadOk(_)));
                 let has_lin = reads.iter().any(|o| matches!(o.kind, OpKind::ReadLin) && matches!(o.outcome, Outcome::ReadOk(_)));
                 // re-check without lease reads / without any reads to attribute the property
-                let no_lease: Vec<LEvent> = evs
-                    .iter()
-                    .filter(|e| !reads.iter().any(|o| o.id == e.id && matches!(o.kind, OpKind::ReadLease)))
-                    .cloned()
-                    .collect();
+                let no_lease: Vec<LEvent> = evs.iter().filter(|e| !lease_read_ids.contains(&e.id)).cloned().collect();
                 let no_reads: Vec<LEvent> = evs.iter().filter(|e| !matches!(e.op, LOp::Read(_))).cloned().collect();
                 let prop = if lin::check(&no_reads, None, 400_000) == LinResult::Violation {
                     "C10"
@@ -618,7 +721,8 @@ pub fn final_checks(world: &WorldRef, hist: &HistoryRef) -> Value {
                 oracle.lock().unwrap().violate(
                     prop,
                     if prop == "C10" { "nonlinearizable_writes" } else { "stale_read_nonlinearizable" },
-                    json!({"key": key, "ops": mini.len(), "has_lease_reads": has_lease, "has_lin_reads": has_lin, "history": mini}),
+                    json!({"key": key, "ops": mini.len(), "has_lease_reads": has_lease, "has_lin_reads": has_lin,
+                           "read_served_by_deposed_leader": evs.iter().any(|e| deposed_reads.contains(&e.id)), "history": mini}),
                 );
             }
         }
@@ -632,20 +736,34 @@ pub fn final_checks(world: &WorldRef, hist: &HistoryRef) -> Value {
         let mut o = oracle.lock().unwrap();
         let notes = o.leader_notes.clone();
         let mut per_term: BTreeMap<u64, BTreeSet<u32>> = BTreeMap::new();
+        let mut bogus: BTreeMap<u64, Vec<(u32, bool)>> = BTreeMap::new();
         for (node, list) in notes.iter() {
             for (_, n) in list.iter() {
                 if let Some((l, t)) = n {
                     per_term.entry(*t).or_default().insert(*l);
                     let known = o.leaders.get(t).is_some_and(|v| v.iter().any(|e| e.node == *l));
                     if !known {
-                        o.violate("C31", "notified_nonleader", json!({"node": node, "leader": l, "term": t}));
+                        // was the notifier itself the (deposed) leader of the term it reports?
+                        let by_term_leader = o.leaders.get(t).is_some_and(|v| v.iter().any(|e| e.node == *node));
+                        o.violate(
+                            "C31",
+                            "notified_nonleader",
+                            json!({"node": node, "leader": l, "term": t, "notifier_was_leader_of_that_term": by_term_leader}),
+                        );
+                        bogus.entry(*t).or_default().push((*node, by_term_leader));
                     }
                 }
             }
         }
         for (t, ls) in per_term {
             if ls.len() > 1 {
-                o.violate("C31", "two_leaders_notified", json!({"term": t, "leaders": ls}));
+                let only_by_deposed = bogus.get(&t).is_some_and(|b| !b.is_empty() && b.iter().all(|x| x.1))
+                    && ls.len() == 2;
+                o.violate(
+                    "C31",
+                    "two_leaders_notified",
+                    json!({"term": t, "leaders": ls, "extra_leader_notified_only_by_deposed_term_leader": only_by_deposed}),
+                );
             }
         }
     }
